@@ -62,7 +62,15 @@ pub fn update_msg(who: &Who, sections: u8, input: &mut dyn FnMut(&str) -> Uint12
     } else {
         None
     };
-    let monitors = if sections & S_MONITORS != 0 { Some(vec![who.u1.clone(), who.u2.clone()]) } else { None };
+    let monitors = if sections & S_MONITORS != 0 {
+        if sections & S_NEWPREFIX != 0 {
+            Some(vec![addr::addr(NEW_PREFIX, 78, 20), addr::addr(NEW_PREFIX, 79, 20)])
+        } else {
+            Some(vec![who.u1.clone(), who.u2.clone()])
+        }
+    } else {
+        None
+    };
     let period = if sections & S_PERIOD != 0 { Some(4242u64) } else { None };
     ExecuteMsg::UpdateConfig { native_chain_config: native, protocol_chain_config: protocol, protocol_fee_config: fee, monitors, batch_period: period }
 }
@@ -75,7 +83,7 @@ pub fn check_update(cx: &Ctx, s: &StepOut, sections: u8) {
     let input = |name: &str| -> t::T { s.inputs.iter().find(|(n, _)| n.ends_with(name)).map(|x| x.1.clone()).unwrap_or_else(|| "0".into()) };
     claim(f, "C14:update can never alter the LST denom or the halted flag", pre.liquid_stake_token_denom == post.liquid_stake_token_denom && pre.stopped == post.stopped);
     claim(f, "C14:update touches only the config item", raw_equal_except(&s.pre.raw, &s.post.raw, &[b"config"]));
-    claim(f, "C14:treasury under the old prefix is refused when the prefix changes in the same update", sections & S_OLDPREFIX_TREASURY == 0 || sections & S_FEE == 0 || sections & S_PROTOCOL == 0);
+    claim(f, "C14:addresses under the old prefix are refused when the prefix changes in the same update", sections & S_OLDPREFIX_TREASURY == 0 || sections & S_PROTOCOL == 0 || sections & (S_FEE | S_MONITORS) == 0);
     // native section
     if sections & S_NATIVE != 0 {
         let n = &post.native_chain_config;
@@ -118,7 +126,8 @@ pub fn check_update(cx: &Ctx, s: &StepOut, sections: u8) {
         prove(f, "C14:fee rate untouched when not supplied", t::eq(&t::ut(pre.protocol_fee_config.dao_treasury_fee), &t::ut(post.protocol_fee_config.dao_treasury_fee)));
     }
     if sections & S_MONITORS != 0 {
-        claim(f, "C14:monitors replaced by the supplied list", post.monitors == vec![Addr::unchecked(who.u1.clone()), Addr::unchecked(who.u2.clone())]);
+        let want = if sections & S_NEWPREFIX != 0 { vec![Addr::unchecked(addr::addr(NEW_PREFIX, 78, 20)), Addr::unchecked(addr::addr(NEW_PREFIX, 79, 20))] } else { vec![Addr::unchecked(who.u1.clone()), Addr::unchecked(who.u2.clone())] };
+        claim(f, "C14:monitors replaced by the supplied list", post.monitors == want);
     } else {
         claim(f, "C14:monitors untouched when not supplied", pre.monitors == post.monitors);
     }
